@@ -27,12 +27,19 @@ type c01Out struct {
 	Idle   int     `json:"idle_pass_deliveries"`
 }
 
+// setYield installs the controller for the yield points inside the metric
+// types (counter.value 1..3, gauge 11/21/22); the registry's and the report
+// loop's yield points pass through.
 func setYield(c *Ctl) {
 	if c == nil {
 		tally.VerifSetYield((func(int))(nil))
 		return
 	}
-	tally.VerifSetYield(c.Yield)
+	tally.VerifSetYield(func(p int) {
+		if p < 30 {
+			c.Yield(p)
+		}
+	})
 }
 
 // c01Exec runs the case; when complete is true the schedule is extended (first
